@@ -151,7 +151,8 @@ def judge(case):
         if rep is None or not rep["ok"]:
             raise HarnessError(f"read_all worker failed: {rep} {err[-800:]}")
         W = None
-        if problem["kind"] == "tabular" and kind == "vi":
+        if problem["kind"] == "tabular" and kind == "vi" and sdesc["params"].get("jax_double_precision", True):
+            # (with jax_double_precision=False gamma is float32 by request: the iterates legitimately differ from float64 numpy)
             W = ref_mdp.vi_iterates(problem["spec"], float(sdesc["params"]["gamma"]), max(steps))
         for s_ in steps:
             got = rep["result"][str(s_)]
